@@ -413,6 +413,7 @@ package websocket
 //@ ensures [hdr-fields] {C02} err == nil ==> specFrameHeaderOK(c.writeHeader, c.client, fin, flate, opcode, len(p))
 //@ ensures [hdr-bytes] {C02} err == nil ==> forall(0, specHdrLen(c.writeHeader), func(k int) bool { return ghwr(c.bw).out[old(ghwr(c.bw).pos)+k] == specHdrByte(c.writeHeader, k) })
 //@ ensures [len] {C02} err == nil ==> ghwr(c.bw).pos == old(ghwr(c.bw).pos)+specHdrLen(c.writeHeader)+len(p)
+//@ ensures [n] err == nil ==> result0 == len(p)
 //@ ensures [payload-plain] {C02 C01} err == nil && !c.client ==> forall(0, len(p), func(k int) bool { return ghwr(c.bw).out[old(ghwr(c.bw).pos)+specHdrLen(c.writeHeader)+k] == p[k] })
 //@ ensures [prefix] {C02} forall(0, old(ghwr(c.bw).pos), func(k int) bool { return ghwr(c.bw).out[k] == old(ghwr(c.bw).out[k]) })
 //@ ensures [mask-key-fresh] {C02} err == nil && c.client ==> c.writeHeader.maskKey == specDecKey(rdin(specRand(), old(ghrd(specRand()).pos)), rdin(specRand(), old(ghrd(specRand()).pos)+1), rdin(specRand(), old(ghrd(specRand()).pos)+2), rdin(specRand(), old(ghrd(specRand()).pos)+3)) && ghrd(specRand()).pos == old(ghrd(specRand()).pos)+4
@@ -423,3 +424,91 @@ package websocket
 //@ ensures [caller-buf] {C01} forall(0, len(p), func(k int) bool { return p[k] == old(p[k]) })
 //@ ensures [inv] connInv(c) && specWriteInv(c)
 //@ ensures [err-kind] !errIsCE(err) && err != io.EOF
+
+// ---------------------------------------------------------------------------
+// write.go: message writer (C02 fragment order, C01, C05 locking, C14 context reset)
+
+//@ define WRFPw ghwr(mw.c.bw).pos, ghwr(mw.c.bw).out, ghwr(mw.c.bw).buffered, ghrd(specRand()).pos, mw.c.writeHeader, mw.c.writeHeaderBuf, bytes(mw.c.writeBuf), chanstate(mw.c.writeTimeout), chanstate(mw.c.writeFrameMu.ch), gh(mw.c).closeSent
+
+//@ func (*msgWriter).write
+//@ tags C02 C01
+//@ requires connInv(mw.c) && specWriteInv(mw.c) && mw.c.msgWriter == mw && mw.ctx != nil && !gvcHeld(mw.c.writeFrameMu.ch) && 0 <= mw.opcode && mw.opcode <= 2 && len(p) < 1<<56
+//@ requires [alias] len(p) == 0 || ((mw.c.client ==> gvcRegion(mw.c.writeBuf) != gvcRegion(p)) && gvcRegion(mw.c.writeHeaderBuf[:]) != gvcRegion(p))
+//@ modifies $WRFPw, mw.opcode
+//@ ensures [frame] {C02} result1 == nil ==> specFrameHeaderOK(mw.c.writeHeader, mw.c.client, false, mw.flate, old(mw.opcode), len(p)) && ghwr(mw.c.bw).pos == old(ghwr(mw.c.bw).pos)+specHdrLen(mw.c.writeHeader)+len(p)
+//@ ensures [next-is-continuation] {C02} result1 == nil ==> mw.opcode == opContinuation
+//@ ensures [opcode-kept-on-error] result1 != nil ==> mw.opcode == old(mw.opcode)
+//@ ensures [n] result1 == nil ==> result0 == len(p)
+//@ ensures [inv] connInv(mw.c) && specWriteInv(mw.c) && !gvcHeld(mw.c.writeFrameMu.ch)
+//@ ensures [caller-buf] {C01} forall(0, len(p), func(k int) bool { return p[k] == old(p[k]) })
+
+//@ func (*msgWriter).reset
+//@ tags C02 C05
+//@ requires connInv(mw.c) && mw.c.msgWriter == mw && ctx != nil && !gvcHeld(mw.mu.ch) && (typ == MessageText || typ == MessageBinary)
+//@ modifies chanstate(mw.mu.ch), mw.ctx, mw.opcode, mw.flate, mw.closed, mw.trimWriter.tail
+//@ ensures [locked] result == nil ==> gvcHeld(mw.mu.ch) && mw.ctx == ctx && mw.opcode == opcode(typ) && !mw.flate && !mw.closed
+//@ ensures [failed] result != nil ==> !gvcHeld(mw.mu.ch)
+//@ ensures [closed-fails] {C06} old(gvcClosed(mw.c.closed)) ==> result != nil
+//@ ensures [inv] connInv(mw.c)
+
+//@ func (*msgWriter).ensureFlate
+//@ tags C01 C02
+//@ requires mw != nil && mw.c != nil
+//@ modifies mw.trimWriter, mw.flateWriter, mw.flate, ghfw(mw.flateWriter).dst
+//@ ensures [on] mw.flate && mw.flateWriter != nil && mw.trimWriter != nil
+//@ ensures [kept] old(mw.flateWriter) != nil ==> mw.flateWriter == old(mw.flateWriter)
+//@ ensures [tw-kept-or-fresh] mw.trimWriter == old(mw.trimWriter) || (old(mw.trimWriter) == nil && gvcFresh(mw.trimWriter) && mw.trimWriter.tail == nil)
+//@ ensures [owner] {assume} ghconnW(ghfw(mw.flateWriter).dst) == mw.c
+//@ note [owner] is assumption A-internal-writers: the flate writer writes to mw.trimWriter, which forwards to (*msgWriter).write of this connection
+
+//@ func (*msgWriter).Write
+//@ tags C02 C01 C05
+//@ requires connInv(mw.c) && specWriteInv(mw.c) && mw.c.msgWriter == mw && mw.ctx != nil && !gvcHeld(mw.writeMu.ch) && !gvcHeld(mw.c.writeFrameMu.ch) && 0 <= mw.opcode && mw.opcode <= 2 && len(p) < 1<<56
+//@ requires [alias] len(p) == 0 || ((mw.c.client ==> gvcRegion(mw.c.writeBuf) != gvcRegion(p)) && gvcRegion(mw.c.writeHeaderBuf[:]) != gvcRegion(p))
+//@ requires [flate-owner] (mw.flateWriter != nil ==> ghconnW(ghfw(mw.flateWriter).dst) == mw.c) && (mw.flate ==> mw.flateWriter != nil && mw.trimWriter != nil)
+//@ modifies $WRFPw, mw.opcode, mw.flate, mw.trimWriter, mw.flateWriter, ghfw(mw.flateWriter).dst, chanstate(mw.writeMu.ch), mw.trimWriter.tail, bytes(mw.trimWriter.tail)
+//@ ensures [flate-decision] {C02 C01} mw.flate && !old(mw.flate) ==> mw.c.copts != nil && old(mw.opcode) != opContinuation && len(p) >= mw.c.flateThreshold
+//@ ensures [no-flate-off] {C02} old(mw.flate) ==> mw.flate
+//@ ensures [plain-frame] {C02} err == nil && !mw.flate ==> specFrameHeaderOK(mw.c.writeHeader, mw.c.client, false, false, old(mw.opcode), len(p)) && mw.opcode == opContinuation
+//@ ensures [unlocked] {C05} !gvcHeld(mw.writeMu.ch)
+//@ ensures [closed-writer] old(mw.closed) ==> err != nil
+//@ ensures [opcode-range] 0 <= mw.opcode && mw.opcode <= 2
+//@ ensures [inv] connInv(mw.c) && specWriteInv(mw.c) && !gvcHeld(mw.c.writeFrameMu.ch)
+//@ ensures [flate-owner] (mw.flateWriter != nil ==> ghconnW(ghfw(mw.flateWriter).dst) == mw.c) && (mw.flate ==> mw.flateWriter != nil && mw.trimWriter != nil && mw.c.copts != nil)
+//@ ensures [tw-kept-or-fresh] mw.trimWriter == old(mw.trimWriter) || (old(mw.trimWriter) == nil && gvcFresh(mw.trimWriter))
+//@ ensures [n] err == nil ==> result0 == len(p)
+
+//@ func (*msgWriter).Close
+//@ tags C02 C01 C05 C14
+//@ requires connInv(mw.c) && specWriteInv(mw.c) && mw.c.msgWriter == mw && mw.ctx != nil && !gvcHeld(mw.writeMu.ch) && !gvcHeld(mw.c.writeFrameMu.ch) && 0 <= mw.opcode && mw.opcode <= 2
+//@ requires [flate-owner] (mw.flateWriter != nil ==> ghconnW(ghfw(mw.flateWriter).dst) == mw.c) && (mw.flate ==> mw.flateWriter != nil && mw.trimWriter != nil && mw.c.copts != nil)
+//@ modifies $WRFPw, mw.opcode, mw.closed, mw.flateWriter, chanstate(mw.writeMu.ch), chanstate(mw.mu.ch), mw.trimWriter.tail, bytes(mw.trimWriter.tail)
+//@ ensures [fin-frame] {C02} err == nil ==> specFrameHeaderOK(mw.c.writeHeader, mw.c.client, true, mw.flate, mw.opcode, 0) && (mw.opcode == old(mw.opcode) || mw.opcode == opContinuation)
+//@ ensures [released] {C05} err == nil ==> !gvcHeld(mw.mu.ch)
+//@ ensures [unlocked] {C05} !gvcHeld(mw.writeMu.ch)
+//@ ensures [ctx-reset] {C14 C02} err == nil && mw.flate && specSenderNoTakeover(mw.c.client, mw.c.copts) ==> mw.flateWriter == nil
+//@ ensures [ctx-kept] {C14 C02} err == nil && mw.flate && !specSenderNoTakeover(mw.c.client, mw.c.copts) ==> mw.flateWriter == old(mw.flateWriter)
+//@ ensures [closed] old(mw.closed) ==> err != nil
+
+//@ func (*Conn).writer
+//@ tags C02 C05
+//@ requires connInv(c) && ctx != nil && !gvcHeld(c.msgWriter.mu.ch) && (typ == MessageText || typ == MessageBinary)
+//@ modifies chanstate(c.msgWriter.mu.ch), c.msgWriter.ctx, c.msgWriter.opcode, c.msgWriter.flate, c.msgWriter.closed, c.msgWriter.trimWriter.tail
+//@ ensures [locked] result1 == nil ==> gvcHeld(c.msgWriter.mu.ch) && c.msgWriter.opcode == opcode(typ) && !c.msgWriter.flate && !c.msgWriter.closed && c.msgWriter.ctx == ctx
+//@ ensures [failed] result1 != nil ==> !gvcHeld(c.msgWriter.mu.ch)
+//@ ensures [closed-fails] {C06} old(gvcClosed(c.closed)) ==> result1 != nil
+
+//@ func (*Conn).write
+//@ opt inline=(*Conn).writer
+//@ opt noframe=mem:u8
+//@ note the byte-memory frame is not claimed for the compressed path (the deflate writer's callbacks re-allocate the 4-byte tail buffer); what matters to callers is stated explicitly in [caller-buf]
+//@ tags C02 C01 C05
+//@ requires connInv(c) && specWriteInv(c) && ctx != nil && !gvcHeld(c.msgWriter.mu.ch) && !gvcHeld(c.msgWriter.writeMu.ch) && !gvcHeld(c.writeFrameMu.ch) && (typ == MessageText || typ == MessageBinary) && len(p) < 1<<56
+//@ requires [alias] len(p) == 0 || ((c.client ==> gvcRegion(c.writeBuf) != gvcRegion(p)) && gvcRegion(c.writeHeaderBuf[:]) != gvcRegion(p))
+//@ requires [flate-owner] (c.msgWriter.flateWriter != nil ==> ghconnW(ghfw(c.msgWriter.flateWriter).dst) == c) && (c.copts == nil ==> c.msgWriter.flateWriter == nil)
+//@ modifies $WRFP, chanstate(c.msgWriter.mu.ch), chanstate(c.msgWriter.writeMu.ch), c.msgWriter.ctx, c.msgWriter.opcode, c.msgWriter.flate, c.msgWriter.closed, c.msgWriter.trimWriter, c.msgWriter.flateWriter, ghfw(c.msgWriter.flateWriter).dst, c.msgWriter.trimWriter.tail, bytes(c.msgWriter.trimWriter.tail)
+//@ ensures [single-frame] {C02 C01} result1 == nil && c.copts == nil ==> specFrameHeaderOK(c.writeHeader, c.client, true, false, opcode(typ), len(p)) && ghwr(c.bw).pos == old(ghwr(c.bw).pos)+specHdrLen(c.writeHeader)+len(p)
+//@ ensures [payload] {C02 C01} result1 == nil && c.copts == nil && !c.client ==> forall(0, len(p), func(k int) bool { return ghwr(c.bw).out[old(ghwr(c.bw).pos)+specHdrLen(c.writeHeader)+k] == p[k] })
+//@ ensures [released] {C05} result1 == nil ==> !gvcHeld(c.msgWriter.mu.ch)
+//@ ensures [caller-buf] {C01} c.copts == nil ==> forall(0, len(p), func(k int) bool { return p[k] == old(p[k]) })
+//@ ensures [closed-fails] {C06} old(gvcClosed(c.closed)) ==> result1 != nil
